@@ -34,7 +34,17 @@ METHOD_RENAMES = ["GetURL", "List", "Get2FA", "getinfo", "Do_It", "X", "ListAllH
                   "Résumé", "get", "IPv6Info"]
 
 
+# raw identifiers: the Rust name (and so the wire name) is the identifier without `r#`
+RAW_WORDS = ["r#type", "r#in", "r#match", "r#fn", "r#async", "r#move", "r#ref", "r#loop", "r#struct"]
+
+
+def unraw(s):
+    return s[2:] if s.startswith("r#") else s
+
+
 def method_name(rng):
+    if rng.random() < 0.06:
+        return rng.choice(RAW_WORDS)
     for _ in range(100):
         k = rng.choice([1, 2, 2, 3, 3, 4])
         ws = []
@@ -319,8 +329,11 @@ def gen_method(rng, used_names):
     for i in range(np):
         while True:
             w = rng.choice(PARAM_WORDS)
-            if rng.random() < 0.4:
+            r = rng.random()
+            if r < 0.4:
                 w = w + "_" + rng.choice(PARAM_WORDS)
+            elif r < 0.52:
+                w = rng.choice(RAW_WORDS)
             if w not in pn:
                 break
         pn.add(w)
@@ -332,10 +345,10 @@ def gen_method(rng, used_names):
     # wire names must be distinct (a serde struct with two fields of the same name is the user's bug)
     seen = set()
     for p in params:
-        wn = p["rename"] if p["rename"] is not None else p["name"]
+        wn = p["rename"] if p["rename"] is not None else unraw(p["name"])
         if wn in seen:
             p["rename"] = None
-            wn = p["name"]
+            wn = unraw(p["name"])
             if wn in seen:
                 p["rename"] = wn + "X"
                 wn = p["rename"]
@@ -439,14 +452,29 @@ def corpus_fixed():
         M("store_where", [P("key", ["str"], "Key"), P("value", ["gen", ["string"]])],
           [[["s", "k"], ["s", "v"]]], bounds="where", out="unit"),
     ]}
-    for t in (t0, t1):
+    # raw identifiers as parameter and method names, with and without rename, with Option
+    t2 = {"tid": 2, "trait": "T2Proxy", "iface": "org.example.Raw", "attr": "lit", "methods": [
+        M("set_kind", [P("r#type", ["str"]), P("r#in", u32o), P("r#match", ["str"], "match_"),
+                       P("r#fn", stro, "fn")],
+          [[["s", "t"], ["none"], ["s", "m"], ["none"]],
+           [["s", "t"], ["some", ["n", "4"]], ["s", "m"], ["some", ["s", "f"]]]], out="unit"),
+        M("watch_kind", [P("r#async", ["opt", ["bool"], "core::option::"]), P("r#move", ["u32"])],
+          [[["none"], ["n", "1"]], [["some", ["b", True]], ["n", "2"]]], more=True),
+        M("tell", [P("r#loop", ["string"]), P("r#ref", u32o)],
+          [[["s", "l"], ["none"]], [["s", "l"], ["some", ["n", "9"]]]], oneway=True, out="unit"),
+        M("r#type", [P("r#struct", ["str"])], [[["s", "s"]]], oneway=True, out="unit"),
+        M("r#match", [P("r#in", stro), P("id", ["u32"])],
+          [[["none"], ["n", "1"]], [["some", ["s", "i"]], ["n", "2"]]]),
+        M("r#async", [], [[]], more=True),
+    ]}
+    for t in (t0, t1, t2):
         for m in t["methods"]:
             gi = 0
             for p in m["params"]:
                 if p["ty"][0] == "gen":
                     p["gname"] = ["T", "U", "V", "W"][gi]
                     gi += 1
-    return [t0, t1]
+    return [t0, t1, t2]
 
 
 def gen_corpus(rng, ntraits, ncalls):
@@ -461,7 +489,7 @@ def gen_corpus(rng, ntraits, ncalls):
 # two methods with the same wire name; the comparison itself is done by Coq)
 
 def pascal(s):
-    return "".join(w[:1].upper() + w[1:].lower() for w in s.split("_"))
+    return "".join(w[:1].upper() + w[1:].lower() for w in unraw(s).split("_"))
 
 
 # ---------------------------------------------------------------------------------------------
@@ -600,7 +628,7 @@ def render_trait(t):
                 if form == "chain":
                     # generics of chain_<m>: 'c, method generics..., ReplyParams, ReplyError
                     holes = "".join("_, " for p in m["params"] if p["ty"][0] == "gen")
-                    start = "conn.chain_%s::<%s%s, MErr>(%s)" % (m["name"], holes, out_t, args)
+                    start = "conn.chain_%s::<%s%s, MErr>(%s)" % (unraw(m["name"]), holes, out_t, args)
                 else:
                     start = ("conn.chain_call::<Dummy, %s, MErr>(&Call::new(Dummy::Ping))"
                              ".and_then(|c| c.%s(%s))" % (out_t, m["name"], args))
@@ -1119,7 +1147,7 @@ def spec_text(iface, m, args):
     name = m["rename"] if m["rename"] is not None else pascal(m["name"])
     parts = [json.dumps("method") + ":" + json.dumps(iface + "." + name, ensure_ascii=False)]
     if m["params"]:
-        ps = [json.dumps(p["rename"] if p["rename"] is not None else p["name"], ensure_ascii=False) + ":" + value_json(a)
+        ps = [json.dumps(p["rename"] if p["rename"] is not None else unraw(p["name"]), ensure_ascii=False) + ":" + value_json(a)
               for p, a in zip(m["params"], args) if a[0] != "none"]
         parts.append('"parameters":{' + ",".join(ps) + "}")
     if m["oneway"]:
